@@ -33,6 +33,10 @@ pub struct Query {
     /// does to fetch an naddr); replaces authors / kinds / tags
     #[serde(default)]
     pub address_of: Option<u16>,
+    /// multi-range query built from two stored events: (event a, event b, plan 0..6, limit 1..3); several index
+    /// ranges with a small limit - the shape in which per-range early exits matter
+    #[serde(default)]
+    pub multi: Option<(u16, u16, u8, u8)>,
     pub since: Option<u64>,
     pub until: Option<u64>,
     pub limit: Option<u32>,
@@ -98,9 +102,10 @@ pub fn query_strategy() -> BoxedStrategy<Query> {
             prop_oneof![2 => Just(Vec::new()), 1 => prop::collection::vec(any::<u16>(), 1..4)],
             prop_oneof![3 => Just(Vec::new()), 1 => prop::collection::vec(any::<u16>(), 1..3)],
             prop::option::weighted(0.15, any::<u16>()),
+            prop::option::weighted(0.25, (any::<u16>(), any::<u16>(), 0u8..6, 1u8..4)),
         ),
     )
-        .prop_map(|((ids, authors, kinds, tags), since, until, limit, screen, allow_scraping, allow_if_limited_to, allow_if_max_seconds, (authors_of, kinds_of, tags_of, address_of))| {
+        .prop_map(|((ids, authors, kinds, tags), since, until, limit, screen, allow_scraping, allow_if_limited_to, allow_if_max_seconds, (authors_of, kinds_of, tags_of, address_of, multi))| {
             // distinct tag names
             let mut seen = Vec::new();
             let tags = tags
@@ -130,6 +135,7 @@ pub fn query_strategy() -> BoxedStrategy<Query> {
                 kinds_of,
                 tags_of,
                 address_of,
+                multi,
             }
         })
         .boxed()
@@ -303,8 +309,50 @@ impl Prop for C05 {
                 limit: q.limit,
             };
             let mut f = f;
-            if let (Some(i), true) = (q.address_of, n > 0) {
-                let e = &w.events[idx16(i, n)];
+            if let (Some((a, b, plan, lim)), true) = (q.multi, n > 0) {
+                let (ea, eb) = (&w.events[idx16(a, n)], &w.events[idx16(b, n)]);
+                let first_tag = |e: &MEvent| e.tags.iter().find(|t| t.len() >= 2 && t[0].len() == 1 && t[0].as_bytes()[0].is_ascii_alphabetic()).map(|t| (t[0].clone(), t[1].clone()));
+                let (name, v1) = first_tag(ea).unwrap_or(("t".to_string(), "x".to_string()));
+                let v2 = match first_tag(eb) {
+                    Some((nb, vb)) if nb == name && vb != v1 => vb,
+                    _ => pool[1 + (b as usize % 3)].clone(),
+                };
+                let mut vals = vec![v1];
+                if !vals.contains(&v2) {
+                    vals.push(v2);
+                }
+                let two = |x: String, y: String| if x == y { vec![x] } else { vec![x, y] };
+                let kinds2 = if ea.kind == eb.kind { vec![ea.kind] } else { vec![ea.kind, eb.kind] };
+                f = MFilter { since: f.since, until: f.until, limit: Some(lim as u32), ..Default::default() };
+                match plan {
+                    0 => {
+                        f.authors = two(ea.pubkey.clone(), eb.pubkey.clone());
+                        f.kinds = kinds2;
+                    }
+                    1 => {
+                        f.authors = two(ea.pubkey.clone(), eb.pubkey.clone());
+                        f.tags = vec![(name, vals)];
+                    }
+                    2 => {
+                        f.kinds = kinds2;
+                        f.tags = vec![(name, vals)];
+                    }
+                    3 => {
+                        vals.push(pool[2].clone());
+                        vals.dedup();
+                        f.tags = vec![(name, vals)];
+                    }
+                    4 => f.authors = two(ea.pubkey.clone(), eb.pubkey.clone()),
+                    _ => {
+                        f.ids = w.events.iter().skip(idx16(a, n)).take(4).map(|e| e.id.clone()).collect();
+                    }
+                }
+                out.label("multi-range-query");
+            } else if let (Some(i), true) = (q.address_of, n > 0) {
+                // prefer an event that has a replaceable address
+                let start = idx16(i, n);
+                let pick = (0..n).map(|k| (start + k) % n).find(|k| World::address_of(&w.events[*k]).is_some()).unwrap_or(start);
+                let e = &w.events[pick];
                 f.ids.clear();
                 f.authors = vec![e.pubkey.clone()];
                 f.kinds = vec![e.kind];
